@@ -1,18 +1,21 @@
 #!/bin/bash
-# usage: seedtest.sh <worktree> <prop> <n> "<checks to run>"  -- confirms a seeded mutation and runs checks against it
-WT=$1; P=$2; N=$3; CHECKS=$4
+# usage: seedtest.sh <worktree> <prop> <n> "<checks to run>" [demo dir in the repo, default .] [go test tags]
+# confirms a seeded mutation (demo passes clean, fails mutated, pinned suite passes mutated) and runs checks against it
+WT=$1; P=$2; N=$3; CHECKS=$4; DD=${5:-.}; TAGS=${6:-}
 export GOPROXY=off GOFLAGS=-mod=mod
 cd $WT && git checkout -q -- . && git clean -fdq -e out
-cp out/demo${N}_test.go demo_seed_test.go
-PASS_CLEAN=$(go test -vet=off -count=1 -run . -timeout 120s . 2>&1 | tail -1 | cut -c1-60)
+for d in internal/tests/pkg1 internal/tests/pkg2 internal/tests/pkg3/pkg3a internal/tests/pkg4; do cp -n /repo/$d/*_generated.go $WT/$d/ 2>/dev/null; done
+cp out/demo${N}_test.go $DD/demo_seed_test.go
+PASS_CLEAN=$(go test -vet=off -count=1 -tags "$TAGS" -run . -timeout 300s ./$DD 2>&1 | tail -1 | cut -c1-60)
 git apply out/mut${N}.diff
-FAIL_MUT=$(go test -vet=off -count=1 -run . -timeout 120s . 2>&1 | tail -1 | cut -c1-60)
-SUITE=$(go test -vet=off -count=1 ./internal/decode/... ./internal/writer/... ./internal/lang/parser/... ./mpx/... ./rpc/... 2>&1 | grep -c "^ok")
-rm -f demo_seed_test.go; git checkout -q -- .
-echo "seed $P/$N: clean=[$PASS_CLEAN] mutated=[$FAIL_MUT] suite_ok_pkgs=$SUITE"
+FAIL_MUT=$(go test -vet=off -count=1 -tags "$TAGS" -run . -timeout 300s ./$DD 2>&1 | tail -1 | cut -c1-60)
+rm -f $DD/demo_seed_test.go
+SUITE=$(go test -vet=off -count=1 $(go list ./... | grep -v /out$) 2>&1 | grep -c "^FAIL")
+git checkout -q -- .
+echo "seed $P/$N: clean=[$PASS_CLEAN] mutated=[$FAIL_MUT] suite_failures=$SUITE"
 git -C /repo apply $WT/out/mut${N}.diff || { echo "cannot apply to /repo"; exit 1; }
 for c in $CHECKS; do
-  R=$(cd /verif && timeout 900 python3 run/check.py $c --tier quick 2>&1 | head -1 | cut -c1-140)
+  R=$(cd /verif && timeout 1500 python3 run/check.py $c --tier quick 2>&1 | grep -E "^(VIOLATION|OK|KNOWN)" | head -2 | cut -c1-160 | tr '\n' ' ')
   echo "   $c -> $R"
 done
 git -C /repo checkout -- .
